@@ -145,3 +145,55 @@ def feasible_paths(body, prog=None, **kw):
         if st.feasible:
             out.append((path, st))
     return out
+
+
+def walk(e, depth=0):
+    """all sub-expressions of a symbolic expression"""
+    if not isinstance(e, tuple) or depth > 60:
+        return
+    yield e
+    for x in e[1:]:
+        if isinstance(x, tuple):
+            if x and isinstance(x[0], str):
+                for y in walk(x, depth + 1):
+                    yield y
+            else:
+                for z in x:
+                    if isinstance(z, tuple):
+                        for y in walk(z, depth + 1):
+                            yield y
+
+
+def calls_in(e, pred=None):
+    """('call', callee, block, args) / ('mutated', callee, block, prev) / ('via', callee, arg) nodes inside e"""
+    out = []
+    for x in walk(e):
+        if x[0] in ('call', 'mutated', 'via') and (pred is None or match_name(x[1], pred)):
+            out.append(x)
+    return out
+
+
+def has_call(e, pred):
+    return bool(calls_in(e, pred))
+
+
+def consts_in(e):
+    return [x for x in walk(e) if x[0] == 'const']
+
+
+def resolve(st, e, depth=0):
+    """replace references to locals by the locals' values at the end of the path (deep)"""
+    if not isinstance(e, tuple) or depth > 40:
+        return e
+    if e[0] == 'refl':
+        return ('ref', resolve(st, st.env.get(e[1], ('unknown', 'undef')), depth + 1))
+    out = [e[0]]
+    for x in e[1:]:
+        if isinstance(x, tuple):
+            if x and isinstance(x[0], str):
+                out.append(resolve(st, x, depth + 1))
+            else:
+                out.append(tuple(resolve(st, z, depth + 1) if isinstance(z, tuple) else z for z in x))
+        else:
+            out.append(x)
+    return tuple(out)
